@@ -64,6 +64,7 @@ struct Model
 
     std::map<int, Entry> live;
     std::set<int>        Z; // expired and not observably removed (superset of the resident expired entries)
+    std::set<int>        dead; // keys whose most recent entry ended by expiry (attribution: serving such a key is C04, not C01)
     uint64_t             stamp{0};
     bool                 aged_ever{false};
     bool                 uttl_called{false};
@@ -96,6 +97,7 @@ struct Model
             if (it->second.deadline <= now)
             {
                 Z.insert(it->first);
+                dead.insert(it->first);
                 it = live.erase(it);
                 ++n;
             }
@@ -239,6 +241,7 @@ struct Model
             {
                 fx.doa = true;
                 Z.insert(k);
+                dead.insert(k);
                 live.erase(lit);
             }
             return fx;
@@ -294,6 +297,7 @@ struct Model
             live.erase(vk);
         }
         Z.erase(k);
+        dead.erase(k);
         Entry e;
         e.val               = v;
         e.deadline          = deadline;
@@ -306,6 +310,7 @@ struct Model
         {
             fx.doa = true;
             Z.insert(k);
+            dead.insert(k);
         }
         else
             live[k] = e;
